@@ -117,6 +117,21 @@ def check(rep, tier, seed):
         for vals in ("", "1", "1 2", "nan", "1e999 -1e999", "x", "1 2 3 4"):
             inputs.append(("#SHAPE=<%s>\n%s\n" % (hdr, vals)).encode())
     inputs += [b"#SHAPE=<2>\n1 2", b"#SHAPE=<2>", b"#SHAPE=<2>\n\n\n", b"#SHAPE=<2>\r\n1 2\r\n", b"#SHAPE=<2>\n1\t2\n", b"#SHAPE=<2>\n1 \xff\n", b"#SHAPE=<\xc2\xb2>\n1 2\n"]
+    # npy headers whose string values are unusual: wrong lengths, non-ASCII (valid UTF-8 of 2-4 bytes per character) in the
+    # descr / key / value positions, in every header version
+    import struct as _st
+    def npy_with(dict_text, major=1):
+        dct = dict_text.encode("utf-8")
+        lenw = 2 if major == 1 else 4
+        padl = (-(6 + 2 + lenw + len(dct) + 1)) % 64
+        hdr = dct + b" " * padl + b"\n"
+        return b"\x93NUMPY" + bytes([major, 0]) + (_st.pack("<H", len(hdr)) if major == 1 else _st.pack("<I", len(hdr))) + hdr + _st.pack("<3d", 1.0, 2.0, 3.0)
+    for descr in ["f8", "<f88", "xf8", "<f9", "abc", "\u00e9", "\u00e98", "\u20ac", "<\u00e9", "\u00e9f8", "<\u20ac", "\u00dff", "\u21928", "<f8\u00e9", "\u65e5\u672c", "\U0001f600", "", " <f8", "<f8 ", "<F8", "=f8"]:
+        for major in (1, 2, 3):
+            inputs.append(npy_with("{'descr': '%s', 'fortran_order': False, 'shape': (3,), }" % descr, major))
+    for dtxt in ["{'d\u00e9scr': '<f8', 'fortran_order': False, 'shape': (3,), }", "{'descr': '<f8', 'fortran_order': F\u00e4lse, 'shape': (3,), }",
+                 "{'descr': '<f8', 'fortran_order': False, 'shape': (\u0663,), }", "{'descr': '<f8', 'fortran_order': False, 'shape': (3,), } \u00e9"]:
+        inputs.append(npy_with(dtxt))
     good_npy = bytes.fromhex(run_impl(["npyw 2,3 " + ",".join(tok(random_bits(rng, "small")) for _ in range(6))])[0])
     inputs.append(good_npy)
     inputs.append(good_npy[:8] + b"\xff\xff" + good_npy[10:])                       # header_len 65535
